@@ -1,0 +1,48 @@
+//go:build verif
+
+package search
+
+import "github.com/Tom-Johnston/mamba/graph"
+
+// Hook of property C03 for the verification framework in /verif (build tag verif, add-only).
+// Kept in a file of its own (name matched by tools/run_seed.sh) until the coordinator merges it
+// into verif_export.go.
+
+// VerifCanonAugs (property C03) runs isCanonical and addAugmentations ONE CALL AT A TIME on a
+// given graph, inside an iterator allocated by WithPruning exactly as Next uses them: the graph
+// g (n >= 1 vertices, well formed) is copied into the working graph of a fresh
+// WithPruning(n+1, 0, 1, ..) iterator with the automorphism cache cleared (the state right after
+// AddVertex); if withCanonical, isCanonical is called with aug = the neighbours of vertex n-1 in
+// ascending order (what Next passes) and, only if it answers true, addAugmentations is called on
+// the cache it left (what Next does for an accepted child); otherwise addAugmentations alone.
+// Returns the verdict (true when isCanonical was not asked) and the masks pushed, in push order
+// (nil when isCanonical answered false).
+func VerifCanonAugs(g *graph.DenseGraph, withCanonical bool) (verdict bool, masks []uint) {
+	n := g.NumberOfVertices
+	no := func(*graph.DenseGraph) bool { return false }
+	iter := WithPruning(n+1, 0, 1, no, no)
+	iter.sg.G.NumberOfVertices = n
+	iter.sg.G.NumberOfEdges = g.NumberOfEdges
+	iter.sg.G.DegreeSequence = iter.sg.G.DegreeSequence[:n]
+	copy(iter.sg.G.DegreeSequence, g.DegreeSequence)
+	iter.sg.G.Edges = iter.sg.G.Edges[:len(g.Edges)]
+	copy(iter.sg.G.Edges, g.Edges)
+	clearAutomorphismGroup(iter.sg)
+	verdict = true
+	if withCanonical {
+		aug := make([]int, 0, n)
+		for u := 0; u < n-1; u++ {
+			if g.Edges[((n-1)*(n-2))/2+u] > 0 {
+				aug = append(aug, u)
+			}
+		}
+		verdict = isCanonical(iter.sg, aug, iter.op, iter.storage, iter.options)
+		if !verdict {
+			return false, nil
+		}
+	}
+	iter.choices = iter.choices[:0]
+	addAugmentations(iter.sg, &iter.choices, iter.ds, iter.op, iter.storage, iter.options)
+	masks = append([]uint{}, iter.choices...)
+	return verdict, masks
+}
